@@ -37,13 +37,16 @@ def gen(rng, tier):
     clients = []
     sid = 0
     with_cancel = rng.random() < 0.25
+    # some runs raise exceptions whose classes mean something to Python or to concurrent.futures
+    # (StopIteration, CancelledError, AttributeError, KeyError): they are exceptions like any other
+    err_names = ["ErrA", "ErrA", "ErrB", "ErrC"] + (["ErrStop", "ErrCancelled", "ErrAttr", "ErrKey"] if rng.random() < 0.2 else [])
     for c in range(nclients):
         ops = []
         for _ in range(nsubs_per[c]):
             nfail = rng.choice([0, 0, 0, 1, 2, 3])
-            script = [rng.choice(["ErrA", "ErrA", "ErrB", "ErrC"]) for _ in range(nfail)] + ["ok"]
+            script = [rng.choice(err_names) for _ in range(nfail)] + ["ok"]
             if rng.random() < 0.15:
-                script = script[:-1] + [rng.choice(["ErrA", "ErrB"])]
+                script = script[:-1] + [rng.choice(err_names)]
             subs[str(sid)] = {"script": script, "dur": rng.choice([0, 0, 0.01, 0.1]),
                               "args": [["a", sid], rng.randrange(100)][:rng.choice([0, 1, 2])],
                               "kwargs": {"k": ["kw", sid]} if rng.random() < 0.4 else {}}
